@@ -23,7 +23,7 @@ RULE = ('Cases: (P, tau) with P substitution-free and I = P[tau] computed by O1 
 ASSUMPTIONS = ['completeness is only demanded for substitution-free patterns, as the property states']
 FLOORS = {'quick': {'match_single_success': 1000, 'match_single_failure': 1000, 'empty_substitution_success': 200, 'seeded_agree': 300, 'seeded_conflict': 300,
                     'match_list': 2000, 'match_list_all_ground': 200, 'match_list_empty': 10, 'match_list_identity_equation': 200, 'notation_roundtrips': 3000, 'assert_matches_calls': 3000,
-                    'notation_arity0': 50, 'nary_deconstruct': 200}}
+                    'notation_arity0': 50, 'nary_deconstruct': 200, 'instances_spelled_through_substitution_headed_notation': 200}}
 FLOORS['thorough'] = dict(FLOORS['quick'])
 
 
@@ -58,6 +58,7 @@ def shard(ctx):
 
     n = ctx.scale(128000, 1200000)
     pool = gp.concrete_pool(rng, 80, 2, syms=('a', 'b'))
+    ESUB3 = P.Notation('syn_esub3', 2, P.ESubst(P.MetaVar(0), P.EVar(3), P.MetaVar(1)), 'esub3({0}, {1})')
     for k in range(n):
         pe = rp.rand_term(rng, rng.randint(0, 3), meta=rng.random() < 0.85, notation=0.3, substs=False, constrained=0.0, mvs=(0, 1, 2))
         if tb.size(pe) > 120:
@@ -67,6 +68,23 @@ def shard(ctx):
         ie = tb.inst(pe, tau, 'naive')
         pat = rp.fold(pe, rng, rng.choice((0.0, 0.5, 0.9)))
         ins = rp.fold(ie, rng, rng.choice((0.0, 0.5, 0.9)))
+        if rng.random() < 0.06 and not tb.metavar_ids(ie) and ie[0] in ('im', 'ap'):
+            # the instance (or one of its two children) spelled through a notation whose definition is a pending substitution on a
+            # metavariable: esub3(t, plug) := t[plug/x3] is t itself when x3 does not occur in t
+            def wrap(t):
+                return ESUB3(rp.fold(t, rng, 0.4), rp.fold(rng.choice(pool), rng, 0.0))
+            which = rng.choice(('whole', 'left', 'right'))
+            if which == 'whole':
+                cand = wrap(ie)
+            else:
+                l_, r_ = (wrap(ie[1]), rp.fold(ie[2], rng, 0.4)) if which == 'left' else (rp.fold(ie[1], rng, 0.4), wrap(ie[2]))
+                cand = (P.Implies if ie[0] == 'im' else P.App)(l_, r_)
+            try:
+                if tb.of_repo(cand, 'strict') == ie:
+                    ins = cand
+                    ctx.count('instances_spelled_through_substitution_headed_notation')
+            except tb.Undefined:
+                pass
         nontriv = bool(ids) or '(ex ' in tb.show(pe) or '(mu ' in tb.show(pe)
         ctx.case(('ms', tb.show(pe), tb.show(ie)), nontrivial=nontriv)
         if len(ids) >= 2 and tb.size(pe) >= 5 and len(ctx.samples) < 6:
